@@ -5,6 +5,8 @@ CONSTANTS
   FragSNs = {2}
   MaxSteps = 4
   Reliable = TRUE
+  HostileClasses = {}
+  HostileMatched = FALSE
   GenK = 40
 CONSTRAINT Bound
 VIEW View
